@@ -2,7 +2,7 @@
 From Coq Require Import Qround Qabs Permutation.
 From DA Require Import Prelude NDArray Array PyRT.
 From DA.Model Require Import Value Reshape SliceSpec Indexing Align Transform Flatten Construct Cache Ops.
-From DA.Proofs Require Import C10_proofs C05_proofs.
+From DA.Proofs Require Import C10_proofs C05_proofs C05_join C05_programs.
 Open Scope string_scope.
 Open Scope nat_scope.
 Open Scope list_scope.
@@ -77,9 +77,9 @@ Print Assumptions C05_rejects_dup_lists.
    cumulative / diff / argmin,argmax / dropna / fillna / setna / mask assignment / take_axis / compress_axis /
    sort_axis / interp_axis / interp_like / in-place relabelling / a.dims = / queries; align / binary operations
    in both operand orders / broadcast (to axes with non-empty names, to another array) / broadcast_arrays, whose
-   other operands [ins] are well-formed too; and in-place renaming of one axis PROVIDED the new name is not the
-   name of another dimension (open finding axis-name-sibling).  Not covered: flatten / unflatten / reshape with
-   grouped names, stack, concatenate (their results are compared with the implementation case by case only). *)
+   other operands [ins] are well-formed too; stack (new axis name non-empty) and concatenate; and in-place renaming of
+   one axis PROVIDED the new name is not the name of another dimension (open finding axis-name-sibling).  Not covered:
+   flatten / unflatten / reshape with grouped names (their results are compared with the implementation case by case). *)
 Theorem C05_step_wf : forall ins o a v, Forall WF ins -> WF a -> covered a o = true -> apply_op ins o a = Ok v -> WFv v.
 Proof. exact apply_op_wf. Qed.
 Print Assumptions C05_step_wf.
